@@ -408,6 +408,13 @@ class EQLTranslator:
 
     def translate(self) -> None:
         """Translate the EQL query to SQL."""
+        selected_variable = getattr(self.select_like, "selected_variable", None)
+        if not isinstance(selected_variable, Variable):
+            # a set_of, or an entity whose selected expression is an attribute: the statement selects the rows of one
+            # mapped class, the one of a variable
+            raise UnsupportedQueryTypeError(
+                "Only queries that select one variable can be translated."
+            )
         dao_class = get_dao_class(self.select_like.selected_variable._type_)
         if dao_class is None:
             raise MissingDAOError(
@@ -655,7 +662,9 @@ class EQLTranslator:
 
         if isinstance(operand, Literal):
             extractor = DomainValueExtractor(self.session)
-            return self._reject_entity_values(extractor.extract_from_literal(operand))
+            return self._plain_collection(
+                self._reject_entity_values(extractor.extract_from_literal(operand))
+            )
 
         if isinstance(operand, Variable):
             extractor = DomainValueExtractor(self.session)
@@ -670,6 +679,22 @@ class EQLTranslator:
             )
 
         return operand
+
+    @staticmethod
+    def _plain_collection(value: Any) -> Any:
+        """
+        :param value: A value extracted from a literal.
+        :return: The value, a collection as a list that can be bound as the values of an IN.
+        :raises UnsupportedQueryTypeError: If the collection holds collections.
+        """
+        if not isinstance(value, (list, tuple, set, frozenset)):
+            return value
+        values = list(value)
+        if any(isinstance(v, (list, tuple, set, frozenset, dict)) for v in values):
+            raise UnsupportedQueryTypeError(
+                "A collection of collections cannot be used as a value in the translated statement."
+            )
+        return values
 
     @staticmethod
     def _reject_entity_values(value: Any) -> Any:
@@ -714,8 +739,7 @@ class EQLTranslator:
             if not isinstance(values, list):
                 values = [values]
 
-            if len(values) == 1 and isinstance(values[0], (list, tuple)):
-                values = values[0]
+            values = self._plain_collection(values)
 
             if len(values) != 1 or (values and not isinstance(values[0], str)):
                 column = self.translate_attribute(query.right)
